@@ -332,6 +332,21 @@ func firstLine(o, marker string) string {
 	return ""
 }
 
+type entrySearch struct {
+	ran, confirmed      bool
+	src, reason, output string
+	notes               []string
+}
+
+var entrySearchMemo = map[string]*entrySearch{}
+
+// replayBudget: how many failing obligations of one function get their own replay attempt (each costs a go test build and run).
+const replayBudgetPerFunc = 2
+const replayBudgetTotal = 10
+
+var replayAttempts = map[string]int{}
+var replayAttemptsTotal int
+
 // replayObligation tries to turn the solver's candidate model into a failing run of the real code.
 func replayObligation(p *Program, r *funcReport, o *Obligation, prop, replayDir, verif string) (bool, string) {
 	reason := "obligation not discharged"
@@ -340,7 +355,13 @@ func replayObligation(p *Program, r *funcReport, o *Obligation, prop, replayDir,
 	extra := map[string]interface{}{}
 	if r.Session == nil {
 		reason = "no session"
+	} else if replayAttempts[r.Key] >= replayBudgetPerFunc || replayAttemptsTotal >= replayBudgetTotal {
+		reason = fmt.Sprintf("obligation not discharged; no replay attempted for it (the replay budget of %d per function and %d per check was spent on the first failing obligations)", replayBudgetPerFunc, replayBudgetTotal)
+		rp := writeReplayFileX(replayDir, o.Name, prop, o, reason, "", false, extra)
+		return false, rp
 	} else {
+		replayAttempts[r.Key]++
+		replayAttemptsTotal++
 		src, notes, err := buildReplayTest(p, r.Session, o)
 		if err != nil {
 			reason = "obligation not discharged; replay not possible: " + err.Error()
@@ -355,27 +376,36 @@ func replayObligation(p *Program, r *funcReport, o *Obligation, prop, replayDir,
 			extra["replay_cmd"] = "go test -tags verif -overlay <overlay.json mapping the test below into the package> -vet=off -run '^TestGovcReplay$' ./" + contractDirs[pkgNameOf(r.Session.Fn)]
 		}
 	}
-	// an internal function of a parser: also search through the public entry point with its contract
+	// an internal function of a parser: also search through the public entry point with its contract (the search does not depend
+	// on the obligation, so it is run once per package and check)
 	if !confirmed && r.Session != nil {
 		pk := pkgNameOf(r.Session.Fn)
 		if (pk == "hsms" || pk == "sml") && funcRelName(r.Session.Fn) != "Parse" {
-			if ec := p.Contracts.Funcs[pk+".Parse"]; ec != nil {
-				if efn := p.lookupFunc(pk, "Parse"); efn != nil {
-					if es, err := verifyFunction(p, efn, ec); err == nil {
-						if src, notes, err := buildReplayTest(p, es, nil); err == nil {
-							dir := filepath.Join(verif, "work", "replay", sanitizeFile(o.Name)+".entry")
-							out := runReplayTest(p, es, src, dir)
-							if out.Confirmed {
-								confirmed = true
-								test = src
-								reason = "searching through the public entry point " + pk + ".Parse: " + out.Reason
-								extra["replay_output"] = out.Output
-								extra["replay_notes"] = notes
-							} else {
-								extra["entry_point_search"] = out.Reason
+			es, ok := entrySearchMemo[pk]
+			if !ok {
+				es = &entrySearch{}
+				entrySearchMemo[pk] = es
+				if ec := p.Contracts.Funcs[pk+".Parse"]; ec != nil {
+					if efn := p.lookupFunc(pk, "Parse"); efn != nil {
+						if sess, err := verifyFunction(p, efn, ec); err == nil {
+							if src, notes, err := buildReplayTest(p, sess, nil); err == nil {
+								dir := filepath.Join(verif, "work", "replay", pk+".Parse.entry")
+								out := runReplayTest(p, sess, src, dir)
+								es.ran, es.confirmed, es.src, es.reason, es.output, es.notes = true, out.Confirmed, src, out.Reason, out.Output, notes
 							}
 						}
 					}
+				}
+			}
+			if es.ran {
+				if es.confirmed {
+					confirmed = true
+					test = es.src
+					reason = "searching through the public entry point " + pk + ".Parse: " + es.reason
+					extra["replay_output"] = es.output
+					extra["replay_notes"] = es.notes
+				} else {
+					extra["entry_point_search"] = es.reason
 				}
 			}
 		}
